@@ -18,54 +18,61 @@
 (***************************************************************************)
 EXTENDS Naturals, Integers, Sequences, FiniteSets, TLC, Json, IOUtils
 CONSTANTS Export, MaxOps, Budgets
-VARIABLES budget, up, conn, ended, inflight, uid, n, hist, quiet
-vars == <<budget, up, conn, ended, inflight, uid, n, hist, quiet>>
-view == <<budget, up, conn, ended, inflight, uid, n, quiet>>
-Init == budget \in Budgets /\ up = TRUE /\ conn = "ok" /\ ended = FALSE /\ inflight = FALSE /\ uid = FALSE /\ n = 0 /\ quiet = TRUE
+\* hok: the client's own dial hook (PostDial with isRedial) accepts re-established connections; when it does not, a
+\* redial attempt that reaches the server still fails, exactly as if the server were away
+VARIABLES budget, up, conn, ended, inflight, uid, n, hist, quiet, hok
+vars == <<budget, up, conn, ended, inflight, uid, n, hist, quiet, hok>>
+view == <<budget, up, conn, ended, inflight, uid, n, quiet, hok>>
+Reach == up /\ hok     \* a redial attempt can succeed
+Init == budget \in Budgets /\ hok = TRUE /\ up = TRUE /\ conn = "ok" /\ ended = FALSE /\ inflight = FALSE /\ uid = FALSE /\ n = 0 /\ quiet = TRUE
         /\ hist = <<[op |-> "dial", expect |-> "ok", budget |-> budget]>>
 Rec(op, e) == n < MaxOps /\ n' = n + 1 /\ hist' = Append(hist, [op |-> op, expect |-> e, budget |-> budget])
 Redials == budget # 0
 \* a plain call
 Call ==
   /\ ~inflight
-  /\ (~up /\ ~ended /\ conn = "lost" => budget # 99)          \* with unlimited attempts a call would wait for the server: not generated
-  /\ (ended => ~up)     \* a call on an ended session starts one further round of attempts: with the server back its outcome is left open
+  /\ (~Reach /\ ~ended /\ conn = "lost" => budget # 99)          \* with unlimited attempts a call would wait for the server: not generated
+  /\ (ended => ~Reach)     \* a call on an ended session starts one further round of attempts: with the server back its outcome is left open
   /\ IF ended THEN Rec("call", "connerr") /\ UNCHANGED <<conn, ended>>
      ELSE IF conn = "ok" /\ up THEN Rec("call", IF quiet THEN "ok" ELSE "any") /\ UNCHANGED <<conn, ended>>
-     ELSE IF up /\ Redials THEN Rec("call", "any") /\ conn' = "ok" /\ UNCHANGED ended     \* redial on the way: reply or connection error
+     ELSE IF Reach /\ Redials THEN Rec("call", "any") /\ conn' = "ok" /\ UNCHANGED ended     \* redial on the way: reply or connection error
      ELSE Rec("call", "connerr") /\ ended' = TRUE /\ UNCHANGED conn                       \* no server (or no redial): the session ends
-  /\ UNCHANGED <<budget, up, inflight, uid, quiet>>
+  /\ UNCHANGED <<budget, up, inflight, uid, quiet, hok>>
 CallLong == /\ ~inflight /\ ~ended /\ conn = "ok" /\ up /\ quiet
-            /\ inflight' = TRUE /\ Rec("calllong", "started") /\ UNCHANGED <<budget, up, conn, ended, uid, quiet>>
+            /\ inflight' = TRUE /\ Rec("calllong", "started") /\ UNCHANGED <<budget, up, conn, ended, uid, quiet, hok>>
 \* collecting the in-flight call after the fault: it must be complete, with a connection error if the connection was lost
 Collect == /\ inflight /\ inflight' = FALSE
            /\ Rec("collect", IF conn = "lost" \/ ended \/ ~quiet THEN "connerr" ELSE "ok")
-           /\ UNCHANGED <<budget, up, conn, ended, uid, quiet>>
+           /\ UNCHANGED <<budget, up, conn, ended, uid, quiet, hok>>
 \* a call that is being launched (already registered as pending, not yet written) at the moment the reader
 \* detects the loss of the connection; the server stays reachable.  The call must complete -- with the reply
 \* after a redial, or with a connection error --, and the session must recover (or end, without redial).
-CallTorn == /\ ~inflight /\ ~ended /\ conn = "ok" /\ up /\ quiet /\ budget # 3
+CallTorn == /\ ~inflight /\ ~ended /\ conn = "ok" /\ up /\ hok /\ quiet /\ budget # 3
             /\ IF Redials THEN Rec("calltorn", "any") /\ conn' = "lost" /\ UNCHANGED ended
                           ELSE Rec("calltorn", "connerr") /\ ended' = TRUE /\ conn' = "lost"
-            /\ quiet' = FALSE /\ UNCHANGED <<budget, up, inflight, uid>>
-Cut  == /\ ~ended /\ conn = "ok" /\ conn' = "lost" /\ quiet' = FALSE /\ Rec("cut", "-") /\ UNCHANGED <<budget, up, ended, inflight, uid>>
-Down == /\ up /\ up' = FALSE /\ conn' = (IF ended THEN conn ELSE "lost") /\ quiet' = FALSE /\ Rec("down", "-") /\ UNCHANGED <<budget, ended, inflight, uid>>
-Up   == /\ ~up /\ up' = TRUE /\ Rec("up", "-") /\ UNCHANGED <<budget, conn, ended, inflight, uid, quiet>>
-SetID == /\ ~uid /\ ~ended /\ conn = "ok" /\ quiet /\ uid' = TRUE /\ Rec("setid", "-") /\ UNCHANGED <<budget, up, conn, ended, inflight, quiet>>
+            /\ quiet' = FALSE /\ UNCHANGED <<budget, up, inflight, uid, hok>>
+Cut  == /\ ~ended /\ conn = "ok" /\ conn' = "lost" /\ quiet' = FALSE /\ Rec("cut", "-") /\ UNCHANGED <<budget, up, ended, inflight, uid, hok>>
+Down == /\ up /\ up' = FALSE /\ conn' = (IF ended THEN conn ELSE "lost") /\ quiet' = FALSE /\ Rec("down", "-") /\ UNCHANGED <<budget, ended, inflight, uid, hok>>
+Up   == /\ ~up /\ up' = TRUE /\ Rec("up", "-") /\ UNCHANGED <<budget, conn, ended, inflight, uid, quiet, hok>>
+SetID == /\ ~uid /\ ~ended /\ conn = "ok" /\ quiet /\ uid' = TRUE /\ Rec("setid", "-") /\ UNCHANGED <<budget, up, conn, ended, inflight, quiet, hok>>
+\* the client's dial hook starts / stops rejecting re-established connections (the connection in use is not touched)
+\* (only at quiescent points: a redial in progress would race with the change)
+HooksBad == /\ hok /\ quiet /\ conn = "ok" /\ budget \notin {3, 99} /\ hok' = FALSE /\ Rec("hooksbad", "-") /\ UNCHANGED <<budget, up, conn, ended, inflight, uid, quiet>>
+HooksOk  == /\ ~hok /\ quiet /\ hok' = TRUE /\ Rec("hooksok", "-") /\ UNCHANGED <<budget, up, conn, ended, inflight, uid, quiet>>
 \* quiescence: a complete round of redial attempts has passed
 Wait == /\ ~inflight
-        /\ (conn = "lost" /\ ~ended /\ ~up => budget # 99)     \* unlimited attempts against a dead server never quiesce
+        /\ (conn = "lost" /\ ~ended /\ ~Reach => budget # 99)     \* unlimited attempts against a dead server never quiesce
         /\ IF conn = "lost" /\ ~ended
-             THEN IF up /\ Redials THEN conn' = "ok" /\ UNCHANGED ended
+             THEN IF Reach /\ Redials THEN conn' = "ok" /\ UNCHANGED ended
                   ELSE ended' = TRUE /\ UNCHANGED conn
              ELSE UNCHANGED <<conn, ended>>
         /\ quiet' = TRUE
         /\ Rec("wait", IF ended' THEN "ended" ELSE "healthy")
-        /\ UNCHANGED <<budget, up, inflight, uid>>
+        /\ UNCHANGED <<budget, up, inflight, uid, hok>>
 Blip == /\ budget = 3 /\ ~ended /\ conn = "ok" /\ up /\ quiet /\ conn' = "lost" /\ quiet' = FALSE /\ Rec("blip", "-")
-        /\ UNCHANGED <<budget, up, ended, inflight, uid>>
+        /\ UNCHANGED <<budget, up, ended, inflight, uid, hok>>
 Next == IF budget = 3 THEN Blip \/ Wait \/ (quiet /\ Call) \/ SetID
-        ELSE Call \/ CallLong \/ Collect \/ Cut \/ Down \/ Up \/ SetID \/ Wait \/ CallTorn
+        ELSE Call \/ CallLong \/ Collect \/ Cut \/ Down \/ Up \/ SetID \/ Wait \/ CallTorn \/ HooksBad \/ HooksOk
 Spec == Init /\ [][Next]_vars
 \* sanity of the expectation model: an ended session never becomes healthy again; without redial every loss ends the session
 EndedStays == [][ended => ended']_vars
